@@ -68,11 +68,20 @@ harness!(se_h_c19, c19, {
             // (ii) it does not stop short: byte n, decoded on its own by a fresh decoder of the same encoding, does not
             // simply yield its own value
             if n < len {
-                let mut f = used.new_decoder_without_bom_handling();
-                let mut rf = Run::new(8);
-                push_noreplace(&mut f, SK_U16, &b[n..n + 1], false, &mut rf);
-                let same = rf.log.n == 1 && rf.log.ev[0].k == K_UNIT && rf.log.ev[0].a == b[n] as u32;
-                check(!same, 6);
+                if used.is_single_byte() {
+                    // single-byte encodings: byte n is precisely the first byte that decodes to something else
+                    let mut f = used.new_decoder_without_bom_handling();
+                    let mut rf = Run::new(8);
+                    push_noreplace(&mut f, SK_U16, &b[n..n + 1], false, &mut rf);
+                    let same = rf.log.n == 1 && rf.log.ev[0].k == K_UNIT && rf.log.ev[0].a == b[n] as u32;
+                    check(!same, 6);
+                } else {
+                    // other encodings: n must not stop inside a run of ASCII bytes the encoding passes through unchanged
+                    // (the property asks no more: e.g. Shift_JIS 0x80 -> U+0080 is not counted by the crate, which is conservative)
+                    let c = b[n];
+                    let pass_through_ascii = c < 0x80 && !(used == ISO_2022_JP && (c == 0x1B || c == 0x0E || c == 0x0F));
+                    check(!pass_through_ascii, 9);
+                }
                 reach(62);
             }
         }
@@ -88,5 +97,54 @@ harness!(se_h_c19, c19, {
         j += 1;
     }
     if !nothing_pending { reach(63); }
+    reach(END);
+});
+
+// Query point inside the caller loop: a decoder and a lock-step twin are fed the same symbolic stream call by call
+// (large sink); right after the first call that returns Malformed - when deferred output such as gb18030's pending
+// ASCII byte may be waiting - latin1_byte_compatible_up_to is asked about the unconsumed remainder.  Some(n) must be
+// sound: the twin, continuing from the same state, decodes the next n bytes to exactly those byte values.
+// params: 0 encoding, 1/2 symbolic byte count, 5/6 first-byte shard, 7 prefix id, 8 BOM mode
+harness!(se_h_c19_mid, c19_mid, {
+    let e = param(0);
+    let mut src = [0u8; 16];
+    let mut len = put_prefix(param(7), &mut src);
+    let n = sym_range(100, param(1), param(2));
+    let mut i = 0;
+    while i < n { src[len + i] = sym_u8(i as u32); i += 1; }
+    if n > 0 { assume(src[len] >= param(5) as u8 && src[len] <= param(6) as u8); }
+    len += n;
+    let mut d = new_decoder(e, param(8));
+    let mut t = new_decoder(e, param(8));
+    let mut pos = 0usize;
+    let mut calls = 0;
+    loop {
+        let mut o1 = [0u16; 40]; let mut o2 = [0u16; 40];
+        let (r1, rd1, _w1) = d.decode_to_utf16_without_replacement(&src[pos..len], &mut o1, false);
+        let (r2, rd2, _w2) = t.decode_to_utf16_without_replacement(&src[pos..len], &mut o2, false);
+        check(rd1 == rd2, 1);
+        pos += rd1;
+        calls += 1;
+        check(calls < 20, 2);
+        match r1 {
+            DecoderResult::InputEmpty => { check(r2 == DecoderResult::InputEmpty, 3); break; }
+            DecoderResult::OutputFull => { check(false, 4); break; }
+            DecoderResult::Malformed(_, _) => {
+                reach(64);
+                let rest = &src[pos..len];
+                if let Some(k) = d.latin1_byte_compatible_up_to(rest) {
+                    reach(65);
+                    check(k <= rest.len(), 5);
+                    let mut out = [0u16; 40];
+                    let (r, rd, w) = t.decode_to_utf16_without_replacement(&rest[..k], &mut out, false);
+                    check(r == DecoderResult::InputEmpty && rd == k, 6);
+                    check(w == k, 7);
+                    let mut j = 0;
+                    while j < k && j < w { check(out[j] == rest[j] as u16, 8); j += 1; }
+                } else { reach(66); }
+                break;
+            }
+        }
+    }
     reach(END);
 });
